@@ -41,7 +41,12 @@ _CONTAINERS = [
     "[1, 1.0]", "[1, True]", "(1.0, 1)", "[[1], [1.0]]", "[[1.0], [1]]", "[[True], [1]]", "[[0], [False]]", "([1, 2], [1, 2.0])",
     '[{"a": True}, {"a": 1}]', "[{1}, {1.0}]", "{1: [1], 2: [1.0]}", "[[1], [1], [1.0]]",
 ]
-_INSTANCES = ["A()", "B()", "C()", "D(1)", 'D(1, "y")', "G()", "WithX()", "Closer()"]
+_INSTANCES = ["A()", "B()", "C()", "D(1)", 'D(1, "y")', "G()", "WithX()", "Closer()",
+              # instances of user generics derived from builtin containers
+              # (instances of Rev / IntKeyed with content are left out: a literal of a dict subclass is read as
+              # `Subclass[key type, value type]`, which is a recorded finding for classes whose own parameters
+              # are permuted or partially applied)
+              "Rev()", 'Fwd({1: "a"})', 'Fwd({"a": 1})', "LS([1])", 'LS(["a"])']
 _CLASSES = ["int", "bool", "str", "float", "A", "B", "C", "type", "object", "E", "list", "D"]
 _FUNCS = ["len", "cond", "ident", "(lambda x: x)"]
 _MODULES = ["os", "math"]
@@ -78,6 +83,7 @@ LEAF_TYPES = [
     "N", "TD", "TDp", "TDn", "HasX", "SupportsClose", "type",
     "Literal[1]", "Literal[True]", 'Literal["a"]', "Literal[0, 1]", "Literal[E.a]", 'Literal[b"a"]',
     "Literal[None]", 'Literal[1, "a"]', "Literal[E.a, E.b]", "tuple[()]",
+    "Rev[int, str]", "Rev[str, int]", "Fwd[int, str]", "IntKeyed[str]", "LS[int]",
 ]
 UNARY = [
     "Optional[{0}]", "list[{0}]", "List[{0}]", "set[{0}]", "frozenset[{0}]", "tuple[{0}, ...]",
